@@ -190,6 +190,12 @@ func defaultValueForTypeRec(schemas ast.Schemas, typeDef ast.Type, importModule 
 			return defaultValueForTypeRec(schemas, referredObj.Type, importModule, nil, seenDisjunctions)
 		}
 
+		// the reference leads to a scalar, a list or a map: the default it
+		// carries is a plain value, not a set of overrides.
+		if found && typeDef.Default != nil && referredObj.Type.IsAnyOf(ast.KindScalar, ast.KindArray, ast.KindMap) && !referredObj.Type.IsConcreteScalar() {
+			return typeDef.Default
+		}
+
 		var extraDefaults []string
 
 		if defaultsOverrides != nil {
